@@ -382,7 +382,7 @@ def calls_of(e, acc=None):
     acc = set() if acc is None else acc
     k = e[0]
     if k in ("call", "vcall"):
-        acc.add(e[1])
+        acc.add(e[1][5:] if e[1].startswith("some ") else e[1])
     for x in e[1:]:
         if isinstance(x, tuple):
             calls_of(x, acc)
@@ -427,6 +427,8 @@ def to_lean(e):
             s = "(%s %s %s)" % (k, to_lean(x), s)
         return s
     if k == "call":
+        if e[1].startswith("some "):
+            return "(some %s)" % lean_fn(e[1][5:])
         if not e[2]:
             return lean_fn(e[1])
         return "(%s %s)" % (lean_fn(e[1]), " ".join(to_lean(x) for x in e[2]))
